@@ -548,6 +548,13 @@ func c01Names() []string {
 func genC01Calls(r *kernel.RNG, tier string, i int) interface{} {
 	names := c01Names()
 	sc := &c01Scenario{Kind: "calls", Budget: 50000, Sandbox: r.Chance(0.15)}
+	// script-declared callables with declared parameter types, a struct and a package: their own checking code
+	// (names, arities, types) runs on every call
+	sc.Texts = append(sc.Texts,
+		"(func tf1 [a:int64] [n:int64] (return a)) (func tf2 [a:string b:int64] [n:int64 e:error] (return b nil)) (func tf3 [#a:int64 b:float64] [n:int64] (return 1))",
+		"(struct Ts [(field A: int64 e:0) (field B: string e:1)]) (def ts (Ts A: 1)) (defmap tm) (def pq (package \"pq\" { V := 1; (defn G [x] x) }))",
+		"(defn lzf [#a b] b) (defn vf [a & rest] rest) (defmac mq [x & r] ^(list ~x ~@r))")
+	declared := []string{"tf1", "tf2", "tf3", "Ts", "ts", "tm", "pq.G", "pq.V", "lzf", "vf", "mq", "ts.A", "pq"}
 	k := 24
 	lo := (i * 4) % len(names)
 	for j := 0; j < k; j++ {
@@ -555,12 +562,24 @@ func genC01Calls(r *kernel.RNG, tier string, i int) interface{} {
 		if r.Chance(0.3) {
 			n = r.Pick(c01SpecialForms)
 		}
+		if r.Chance(0.2) {
+			n = r.Pick(declared)
+		}
 		na := r.Weighted([]int{2, 4, 4, 3, 1})
 		var args []string
 		for a := 0; a < na; a++ {
 			args = append(args, r.Pick(c01ArgPool))
 		}
 		t := "(" + n + " " + strings.Join(args, " ") + ")"
+		if strings.HasPrefix(n, "tf") && len(args) > 0 && r.Chance(0.4) {
+			// by-name call with right and wrong labels
+			var parts []string
+			for ai, a := range args {
+				parts = append(parts, r.Pick([]string{"a:", "b:", "c:", "a:"})+a)
+				_ = ai
+			}
+			t = "(" + n + " " + strings.Join(parts, " ") + ")"
+		}
 		switch r.Intn(8) {
 		case 0:
 			t = "{ " + n + " " + strings.Join(args, " ") + " }"
@@ -617,6 +636,17 @@ func genC01Index(r *kernel.RNG, tier string, i int) interface{} {
 			t = fmt.Sprintf("(hset cx %s %s)", ix, v)
 		case 13:
 			t = fmt.Sprintf("{cx[%s] += 1}", ix)
+		}
+		// the same access as a call argument, inside a loop body, and as a non-final statement
+		switch r.Intn(6) {
+		case 0:
+			t = "(+ 1 " + t + ")"
+		case 1:
+			t = "(for [(def i 0) (< i 2) (def i (+ i 1))] " + t + ")"
+		case 2:
+			t = "(begin " + t + " 5)"
+		case 3:
+			t = "(str [" + t + " " + t + "])"
 		}
 		sc.Texts = append(sc.Texts, t, "(str cx)")
 	}
